@@ -235,3 +235,43 @@ package schedule
 //@ ensures [zero-only-after-the-finish-time] imp(result == 0, s.started && now >= *s.finish)
 //@ ensures [negative-only-while-running-or-unstarted] imp(result < 0, !s.started || old(now) < *s.finish)
 //@ modifies nothing
+
+// ---------------------------------------------------------------- config forms: every field reaches the constructor unchanged (C01, C02, C17)
+
+//@ func NewConstConf
+//@ props C01
+// the validate tags of ConstConfig
+//@ requires conf.Duration >= 1000000
+//@ at call NewConst assert [fields-forwarded] arg(ops) == conf.Ops && arg(duration) == conf.Duration
+//@ ensures calls(NewConst) == old(calls(NewConst)) + 1
+
+//@ func NewLineConf
+//@ props C01
+// the validate tags of LineConfig
+//@ requires conf.From >= 0.0 && conf.To >= 0.0 && conf.Duration >= 1000000
+//@ at call NewLine assert [fields-forwarded] arg(from) == conf.From && arg(to) == conf.To && arg(duration) == conf.Duration
+//@ ensures calls(NewLine) == old(calls(NewLine)) + 1
+
+//@ func NewOnceConf
+//@ props C01
+//@ at call NewOnce assert [fields-forwarded] arg(n) == conf.Times
+//@ ensures calls(NewOnce) == old(calls(NewOnce)) + 1
+
+//@ func NewStepConf
+//@ props C01
+// the validate tags of StepConfig (min=0, min=1, min-time=1ms), checked by the config decoder before the constructor runs
+//@ requires conf.From >= 0.0 && conf.To >= 0.0 && conf.Step >= 1 && conf.Duration >= 1000000
+//@ at call NewStep assert [fields-forwarded] arg(from) == conf.From && arg(to) == conf.To && arg(step) == conf.Step && arg(duration) == conf.Duration
+//@ ensures calls(NewStep) == old(calls(NewStep)) + 1
+
+//@ func NewInstanceStepConf
+//@ props C02
+// the validate tags of InstanceStepConfig
+//@ requires conf.From >= 0 && conf.To >= 0 && conf.Step >= 1 && conf.StepDuration >= 1000000
+//@ at call NewInstanceStep assert [fields-forwarded] arg(from) == conf.From && arg(to) == conf.To && arg(step) == conf.Step && arg(stepDuration) == conf.StepDuration
+//@ ensures calls(NewInstanceStep) == old(calls(NewInstanceStep)) + 1
+
+//@ func NewUnlimitedConf
+//@ props C02
+//@ at call NewUnlimited assert [fields-forwarded] arg(duration) == conf.Duration
+//@ ensures calls(NewUnlimited) == old(calls(NewUnlimited)) + 1
